@@ -2,10 +2,11 @@
 """Confirms a seeded change (from /tmp/seed/<name>) on the current /repo HEAD and runs the property's check against it.
 usage: seed_eval.py <seed-dir-name> <property> [--suite]"""
 import json, os, subprocess, sys, shutil, glob
+SEED_ROOT = __import__('os').environ.get('SEED_ROOT', '/tmp/seed'); MUT_ROOT = __import__('os').environ.get('MUT_ROOT', '/tmp/mut')
 name, prop = sys.argv[1], sys.argv[2]
 suite = '--suite' in sys.argv
-src = f'/tmp/seed/{name}'
-wt = f'/tmp/mut/{name}'
+src = f'{SEED_ROOT}/{name}'
+wt = f'{MUT_ROOT}/{name}'
 env = {k: v for k, v in os.environ.items() if k != 'GOTOOLCHAIN'}
 env['GOFLAGS'] = '-mod=mod'
 def sh(cmd, cwd=None, timeout=3600, e=env):
@@ -24,7 +25,7 @@ if rc != 0:
     res['apply_error'] = out[-500:]
     print(json.dumps(res)); sys.exit(0)
 sh('git reset -q', cwd=wt)
-sh('git diff > /tmp/mut/%s.patch' % name, cwd=wt)
+sh('git diff > %s/%s.patch' % (MUT_ROOT, name), cwd=wt)
 # demo files: untracked *_test.go in the seed worktree
 _, untracked = sh('git ls-files --others --exclude-standard', cwd=src)
 demos = [f for f in untracked.split() if f.endswith('_test.go')]
@@ -45,10 +46,10 @@ res['demo_cmd'] = demo_cmd
 if demo_cmd:
     rc1, o1 = sh(demo_cmd, cwd=wt, timeout=900)
     res['demo_with_change'] = 'FAIL' if rc1 != 0 else 'pass'
-    sh('git apply -R /tmp/mut/%s.patch' % name, cwd=wt)
+    sh('git apply -R %s/%s.patch' % (MUT_ROOT, name), cwd=wt)
     rc2, o2 = sh(demo_cmd, cwd=wt, timeout=900)
     res['demo_without_change'] = 'pass' if rc2 == 0 else 'FAIL'
-    sh('git apply /tmp/mut/%s.patch' % name, cwd=wt)
+    sh('git apply %s/%s.patch' % (MUT_ROOT, name), cwd=wt)
     res['demo_tail'] = o1[-300:]
 # remove demo files before running the check / suite
 for d in demos:
@@ -69,5 +70,5 @@ if suite:
         ee = dict(env); ee['REPO_DIR'] = wt
         rc, out = sh(f'python3 /tmp/seed/tools/baseline_check.py {m}', timeout=3000, e=ee)
         res.setdefault('suite', {})[m] = out.strip().splitlines()[0] if out.strip() else ''
-json.dump(res, open(f'/tmp/mut/{name}.result.json', 'w'), indent=1)
+json.dump(res, open(f'{MUT_ROOT}/{name}.result.json', 'w'), indent=1)
 print(json.dumps({k: res[k] for k in res if k not in ('meta', 'demo_tail')}))
